@@ -1,6 +1,7 @@
 import Flurry.SigDefs
 import Flurry.Gen.Atomics
 import Flurry.Lemmas.RwLock
+import Flurry.Gen.Arith
 /-! # C12 — reads never block and never take locks
 
 Two parts.
@@ -67,5 +68,61 @@ open Flurry.Proto.RwLock in
 /-- a reader searching the tree never overlaps a writer that restructures it -/
 theorem tree_readers_exclude_writer {n : Nat} {s : State} (h : Reachable n s)
     (hw : s.wpc = .hold ∨ s.wpc = .swapOut) : numHolding s.readers = 0 := mutual_exclusion h hw
+
+/-! ## the tie of the reader's loop to the source (`TreeBin::find`)
+
+The translator regenerates, from the loop over list elements in `TreeBin::find`, the condition
+under which the reader takes one *linear* step (`findLinearCond`) and what — besides the
+`compare_exchange` itself — guards the attempt to take the read lock (`findCasGuard`; `true` when
+the `else if` is the bare CAS). -/
+section FindLoop
+open Flurry.Gen.BV
+
+/-- **the reader never idles**: in every iteration, whatever the lock word holds, it either takes a
+linear step or attempts the CAS. (A lock word for which neither applies would make the reader
+re-read the word until another thread changes it: it would *wait* — seeded change
+`C12-find-waiter-spin`.) -/
+theorem find_loop_never_idles (s : BitVec 64) : (findLinearCond s || findCasGuard s) = true := by
+  simp [findCasGuard]
+
+/-- the linear step is taken exactly when the `WRITER` bit (bit 0) or the `WAITER` bit (bit 1) is set -/
+theorem find_linear_iff_bits (s : BitVec 64) : findLinearCond s = (s.getLsbD 0 || s.getLsbD 1) := by
+  unfold findLinearCond Flurry.Gen.BV.WAITER Flurry.Gen.BV.WRITER
+  have h : (2#64 ||| 1#64) = 3#64 := by decide
+  rw [h]
+  have h2 : (s &&& 3#64).toNat = s.toNat % 4 := by
+    rw [BitVec.toNat_and]
+    exact Nat.and_two_pow_sub_one_eq_mod s.toNat 2
+  have h0 : s.getLsbD 0 = decide (s.toNat % 2 = 1) := by
+    simp [BitVec.getLsbD, Nat.testBit]; rfl
+  have h1 : s.getLsbD 1 = decide (s.toNat / 2 % 2 = 1) := by
+    simp [BitVec.getLsbD, Nat.testBit, Nat.shiftRight_eq_div_pow]; rfl
+  rw [h0, h1]
+  by_cases hz : (s &&& 3#64) = 0#64
+  · have : (s &&& 3#64).toNat = 0 := by rw [hz]; rfl
+    rw [h2] at this
+    have e : ((s &&& 3#64) != 0#64) = false := by simp [hz]
+    rw [e]; symm; simp; omega
+  · have : (s &&& 3#64).toNat ≠ 0 := by
+      intro h; apply hz; apply BitVec.eq_of_toNat_eq; simpa using h
+    rw [h2] at this
+    have e : ((s &&& 3#64) != 0#64) = true := by simp [hz]
+    rw [e]; symm; simp; omega
+
+open Flurry.Proto.RwLock in
+/-- the decision of the lock model's reader (`Proto/RwLock.stepReader`, pc `decide st`, and the
+`rState` step of `Proto/BinT` / `Proto/BinU`) is the decision of the source, for every lock word -/
+theorem model_decision_is_source_decision (st : Nat) (h : st < 2 ^ 64) :
+    (hasBit (st : Int) Flurry.Gen.WAITER || hasBit (st : Int) Flurry.Gen.WRITER) = findLinearCond (BitVec.ofNat 64 st) := by
+  rw [find_linear_iff_bits]
+  have h0 : (BitVec.ofNat 64 st).getLsbD 0 = decide (st % 2 = 1) := by
+    simp [BitVec.getLsbD, Nat.testBit, Nat.mod_eq_of_lt h]; rfl
+  have h1 : (BitVec.ofNat 64 st).getLsbD 1 = decide (st / 2 % 2 = 1) := by
+    simp [BitVec.getLsbD, Nat.testBit, Nat.shiftRight_eq_div_pow, Nat.mod_eq_of_lt h]; rfl
+  rw [h0, h1]
+  unfold hasBit Flurry.Gen.WAITER Flurry.Gen.WRITER
+  by_cases a : st % 2 = 1 <;> by_cases b : st / 2 % 2 = 1 <;> simp [a, b] <;> omega
+
+end FindLoop
 
 end Flurry.C12
